@@ -266,6 +266,8 @@ inline void run_one(const HarnessDef& h, const Workload& w, uint64_t seed,
     if (h.concurrent) {
         SimCfg c; vec_to_simcfg(w.simv, c);
         rt_run_begin(c, seed, replay ? replay->data() : nullptr, replay ? replay->size() : 0);
+    } else {
+        rt_ledger_reset();
     }
     try {
         h.execute(w, r);
